@@ -1145,20 +1145,15 @@ def r11(F, rep):
         raise AnalysisBroken("C01-R11: no component with an explicit element <-> coordinate map found (cartesian expected)")
 
 
-# ------------------------------------------------------------------------------------------------ R12
-def r12(F, rep):
-    rep.rule("C01-R12", "the result of a search belongs to the step that made it: a member that a component assigns the loop "
-                        "variable under a comparison inside a search loop (arg-min over reference permutations / frames), and "
-                        "that its gradient or force code reads, is also assigned before that loop in the same function -- "
-                        "otherwise, on a step where no candidate wins, the gradients are taken against the winner of an "
-                        "earlier step while the value is the current one")
-
+def search_selectors(F):
+    """(function, write, member key, loop) for every member of a component that is assigned the loop variable under a
+    comparison inside a search loop (arg-min over candidates)."""
     def walk(n):
         yield n
         for c in X.kids(n):
             if c is not None:
                 yield from walk(c)
-    n = 0
+    out = []
     for f in F.funcs.values():
         if "/src/" not in f.file or f.body is None or not f.cls or f.cls not in F.subclasses(CVC, strict=True):
             continue
@@ -1184,13 +1179,26 @@ def r12(F, rep):
             lc = L["c"][1]["i"] if L["c"][1] is not None else None
             if not [g for g in f.cfg.real_guards(w) if g[0] in inl and g[0] != lc]:
                 continue
-            k = X.key(ts, f)
-            n += 1
-            head = L["c"][1] if L["c"][1] is not None else L
-            resets = [w2 for w2, t2 in lvalue_writes(f) if X.key(t2, f) == k and w2 is not w and f.cfg.dominates(w2, head)]
-            rep.add("C01-R12", "%s|%s" % (f.q, X.re_strip(k)), f.loc(w), "%s selects `%s` inside a search loop; it is %s" % (
-                f.q, X.re_strip(k), "assigned before the loop as well" if resets else "NOT reset before the loop: it keeps the winner of an earlier step"), bool(resets),
-                detail="value and gradient refer to different references: the applied forces are not the derivative of the reported value", func=f.q)
+            out.append((f, w, X.key(ts, f), L))
+    return out
+
+
+# ------------------------------------------------------------------------------------------------ R12
+def r12(F, rep):
+    rep.rule("C01-R12", "the result of a search belongs to the step that made it: a member that a component assigns the loop "
+                        "variable under a comparison inside a search loop (arg-min over reference permutations / frames), and "
+                        "that its gradient or force code reads, is also assigned before that loop in the same function -- "
+                        "otherwise, on a step where no candidate wins, the gradients are taken against the winner of an "
+                        "earlier step while the value is the current one")
+
+    n = 0
+    for f, w, k, L in search_selectors(F):
+        n += 1
+        head = L["c"][1] if L["c"][1] is not None else L
+        resets = [w2 for w2, t2 in lvalue_writes(f) if X.key(t2, f) == k and w2 is not w and f.cfg.dominates(w2, head)]
+        rep.add("C01-R12", "%s|%s" % (f.q, X.re_strip(k)), f.loc(w), "%s selects `%s` inside a search loop; it is %s" % (
+            f.q, X.re_strip(k), "assigned before the loop as well" if resets else "NOT reset before the loop: it keeps the winner of an earlier step"), bool(resets),
+            detail="value and gradient refer to different references: the applied forces are not the derivative of the reported value", func=f.q)
     if n < 1:
         raise AnalysisBroken("C01-R12: no arg-min selection of a member inside a search loop found (rmsd atomPermutation expected)")
 
